@@ -1082,6 +1082,10 @@ def determinism_script(r, idx, fate_vec=None, variant=None):
     s["cfg"]["cid_gen"] = "det"
     if variant == "spurious":
         s["cfg"]["spurious"] = False        # the second run turns it on
+        # with a driver that services timers late, an extra handle_timeout finds other timers due and
+        # legitimately does their work earlier than the first run did: equality of outputs is only
+        # claimed for extra calls at instants where nothing else is due
+        s["cfg"]["late_us"] = 0
     steps = []
     for st in s["steps"]:
         steps.append(st)
